@@ -579,6 +579,47 @@ func Jobs(prop, tier string) []*Job {
 		for _, j := range jobs[n0:] {
 			j.Suffix = true
 		}
+	case "C19":
+		// determinism: every state is computed incrementally and again from scratch;
+		// every job is run in two separate processes whose digests must agree. Jobs are
+		// bounded by state caps (not by deadlines) so that both runs cover the same space.
+		var p pool
+		capN := 5000
+		if tier == "thorough" {
+			capN = 60000
+		}
+		for _, f := range []feat{syncF, asyncF} {
+			p.bfs = append(p.bfs, bfsElectProp(f, int(BDup), 1), bfsFailover(f, int(BCrash), 1), bfsSnapshot(f))
+		}
+		p.bfs = append(p.bfs, bfsRead(pvcqF, 2, int(BCampaign), 1, int(BPropose), 1), bfsConf(syncF, []ConfSpec{ccJointImpl, ccLeave}, 2, int(BCampaign), 1),
+			bfsConf(asyncF, []ConfSpec{ccAddVoter4, ccRemove3}, 2, int(BCampaign), 1), bfsDueling(pvF, 3, 2, 3, int(BDup), 1))
+		k := 0
+		if tier == "thorough" {
+			k = 1
+		}
+		fl := append([]int{int(BSnapFail), 1, int(BCompact), 1, int(BRead), 1}, defaultFaults...)
+		p.dd = append(p.dd,
+			ddScn("failover", 3, ids(3), syncF, scriptFailover(), k+1, fl...), ddScn("figure8", 3, ids(3), asyncF, scriptFigure8(), k+1, fl...),
+			ddScn("snapshot", 3, ids(3), syncF, scriptSnapshot(), k, fl...), ddScn("snapshot-restart", 3, ids(3), asyncF, scriptSnapshotRestart(), k, fl...),
+			confSc("learner", syncF, scriptLearner(), k, fl...), confSc("joint", asyncF, scriptJoint(), k, fl...), confSc("conf+failover", feat{stepdown: true}, scriptConfFailover(), k, fl...),
+			ddScn("read", 3, ids(3), pvcqF, scriptRead(), k+1, fl...),
+			tickSc("prevote-rejoin", 3, pvcqF, scriptPrevoteRejoin(), k, int(BTick), 2, int(BDrop), 1),
+			tickSc("checkquorum-lease", 3, cqF, scriptCheckQuorumLease(), k, int(BTick), 2, int(BDrop), 1),
+		)
+		for _, sc := range p.bfs {
+			sc.MaxStates = capN
+		}
+		for _, sc := range append(append([]*Scenario(nil), p.bfs...), p.dd...) {
+			sc.TrackOut = true
+		}
+		add(p)
+		// second copy of every job: same scenario, separate process
+		n0 := len(jobs)
+		for _, j := range jobs[:n0] {
+			c := *j
+			c.Name += "#2"
+			jobs = append(jobs, &c)
+		}
 	case "C16":
 		add(poolFlow(tier), prop)
 		add(pool{dd: poolSnapshot(tier).dd}, prop)
